@@ -1,6 +1,7 @@
 import RactorModel.Lemmas.GenAdmission
 import RactorModel.Extracted
 import RactorModel.Lemmas.ExitRaceLive
+import RactorModel.Lemmas.WaitForms
 
 /-!
 # C06 — shutdown waits are accurate and never miss the wake-up
@@ -18,17 +19,32 @@ open ExitRace
 and every cleanup step preceding `publish(Stopped)` was done: pid and name unregistered, group
 monitors and memberships gone, children terminated, supervisor notified, unlinked, `post_stop`
 returned on a graceful exit) — and this is still true in the current state, so the snapshot it
-takes afterwards shows a fully stopped actor. For any number of waiters, any schedule. -/
+takes afterwards shows a fully stopped actor. For any number of waiters, any schedule. `post_stop` is
+required as long as `Exiter.hasPostStop` holds: it is cleared only by a kill accepted BEFORE the
+processing loop reached `post_stop` (`Tid.kill`; the exit is then a killed one and `post_stop` never
+runs) — see `post_stop_skipped_only_after_kill`. -/
 theorem waiter_returns_only_after_full_stop (g0 : G) (h0 : Initial g0) (sched : List Tid) :
     ∀ w ∈ (run g0 sched).waiters, ∀ ok, w.pc = .returned ok →
       ok = true ∧ (run g0 sched).sh.status = stStopped ∧
-      (run g0 sched).sh.flags.complete g0.exiter.hasPostStop = true := by
+      (run g0 sched).sh.flags.complete (run g0 sched).exiter.hasPostStop = true := by
   intro w hw ok hok
   have I := inv_run _ sched (inv_initial g0 h0)
   obtain ⟨h1, h12⟩ := (I.ws w hw).ret ok hok
   have hok' := okNow_of_stage I.toInvCore h12
-  simp only [okNow, snapshotOk, Bool.and_eq_true, beq_iff_eq, hasPostStop_run] at hok'
+  simp only [okNow, snapshotOk, Bool.and_eq_true, beq_iff_eq] at hok'
   exact ⟨h1, hok'.1, hok'.2⟩
+
+/-- (safety, state form) When a waiter has returned, the registry entry of the actor's name is not
+the actor's any more — `Sh.name` is a modelled state component with three writers
+(`status.unreg_name`, a successor registering the freed name, nobody giving it back) — whatever
+successors, late `drain()`s, panicking clean-up statements and late `set_status` calls race. -/
+theorem returned_waiter_name_released (g0 : G) (h0 : Initial g0) (sched : List Tid) :
+    ∀ w ∈ (run g0 sched).waiters, ∀ ok, w.pc = .returned ok → (run g0 sched).sh.name ≠ .self := by
+  intro w hw ok hok
+  have I := inv_run _ sched (inv_initial g0 h0)
+  have h12 := ((I.ws w hw).ret ok hok).2
+  exact name_gone_run g0 sched (inv_initial g0 h0)
+    (fun h3 => by rw [h0.exiter] at h3; simp [EPc.stage] at h3) (by omega)
 
 /-- What `ok` records: a waiter that returns in this step stores `okNow g`, the observation of the
 state it returns in. -/
@@ -46,15 +62,19 @@ theorem no_lost_wakeup_progress (g0 : G) (h0 : Initial g0) (sched : List Tid) (i
   waiter_progress _ i (inv_run _ sched (inv_initial g0 h0)).toInvCore hf hr
 
 /-- (no lost wake-up, fairness form) After the exiter has finished, every waiter that is scheduled
-three more times — whatever else runs in between — and is not abandoned has returned. -/
+four more times (create `Notified`, read the status, first poll, one more poll) — whatever else runs
+in between — and is not abandoned has returned. In particular a waiter that read a status other
+than `Stopped` and has not polled its `Notified` yet (`WPc.checked`: the window between
+`get_status()` and `notified.await`) when the exiter finishes still returns: its snapshot of the
+`notify_waiters` generation is older than the generation its first poll sees. -/
 theorem no_lost_wakeup (g0 : G) (h0 : Initial g0) (sched more : List Tid) (i : Nat)
     (hi : i < g0.waiters.length) (hf : (run g0 sched).exiter.finished = true)
     (ha : isAbandoned (run g0 sched) i = false)
-    (hcount : 3 ≤ more.count (.w i)) (hna : Tid.abandon i ∉ more) :
+    (hcount : 4 ≤ more.count (.w i)) (hna : Tid.abandon i ∉ more) :
     isReturned (run (run g0 sched) more) i = true := by
   have I := inv_run _ sched (inv_initial g0 h0)
   refine returns_when_scheduled _ i more I hf (by rw [length_run]; exact hi) ha ?_ hna
-  have : remaining (run g0 sched) i ≤ 3 := by
+  have : remaining (run g0 sched) i ≤ 4 := by
     unfold remaining
     split
     · rename_i pc _; cases pc <;> simp [WPc.rank]
@@ -142,6 +162,318 @@ theorem abandon_changes_nothing (g : G) (i : Nat) :
         · first | rfl | (simp only [notifyOne]; split <;> rfl)
         · rfl
 
+/-- `post_stop` is skipped only after an accepted kill: along every schedule the `post_stop`
+obligation of the safety theorems is the initial one (graceful exit or not) unless a `kill()` /
+`kill_and_wait()` was accepted before the processing loop reached `post_stop` — the signal then wins
+the first poll of `run_with_signal(post_stop)` and the exit continues as a killed one. A kill
+accepted later (inside `post_stop`, during `cleanup`) changes nothing. -/
+theorem post_stop_skipped_only_after_kill (g0 : G) (hk : g0.sh.killPending = false) (sched : List Tid) :
+    (run g0 sched).exiter.hasPostStop = (g0.exiter.hasPostStop && !(run g0 sched).sh.killPending) ∧
+    (Tid.kill ∉ sched → (run g0 sched).exiter.hasPostStop = g0.exiter.hasPostStop) := by
+  have h := kp_run g0.exiter.hasPostStop g0 sched (by rw [hk]; simp)
+  refine ⟨h, fun hn => ?_⟩
+  clear h
+  induction sched generalizing g0 with
+  | nil => rfl
+  | cons t l ih =>
+    simp only [run, List.foldl_cons]
+    have ht : t ≠ .kill := fun e => hn (by simp [e])
+    have hl : Tid.kill ∉ l := fun e => hn (List.mem_cons_of_mem _ e)
+    obtain ⟨h1, h2⟩ := step_keeps_kp g0 t ht
+    have := ih (step g0 t) (by rw [h2]; exact hk) hl
+    simp only [run] at this
+    rw [this, h1]
+
+/-- a kill accepted while a graceful exit is between `Stopping` and `post_stop`: `post_stop` never
+runs, the waiters still return only after the full stop (of a killed exit); the same kill accepted
+once the actor is inside `post_stop` changes nothing -/
+example :
+    let g := run (init true [] [] 1) ([.w 0, .w 0, .w 0] ++ List.replicate 3 .e ++ [.kill] ++ List.replicate 16 .e ++ [.w 0])
+    g.exiter.hasPostStop = false ∧ g.sh.flags.postStop = false ∧ g.sh.status = 6 ∧ g.exiter.finished = true ∧
+      g.waiters.map (·.pc) = [.returned true] := by decide
+example :
+    let g := run (init true [] [] 1) ([.w 0, .w 0, .w 0] ++ List.replicate 5 .e ++ [.kill] ++ List.replicate 16 .e ++ [.w 0])
+    g.exiter.hasPostStop = true ∧ g.sh.flags.postStop = true ∧ g.sh.killPending = false ∧
+      g.waiters.map (·.pc) = [.returned true] := by decide
+
+/-- (exit clean-up runs once — the terminal supervision event) The supervisor is handed exactly one
+terminal event when no statement of `cleanup` panics, and never more than two: `Sh.supEvents` counts
+the executions of `cleanup.notify`; a panic in a LATER statement of `cleanup` (`unlink`) makes the
+still-armed guard's `Drop` run `cleanup` again with a fresh "actor_task_cancelled" event, so the
+supervisor is told twice — by design of the guard; the model says so explicitly (witness below).
+For all schedules, any waiters, drains, successors, late `set_status` calls. -/
+theorem terminal_events_bounded (g0 : G) (h0 : Initial g0) (hz : g0.sh.supEvents = 0) (sched : List Tid) :
+    (run g0 sched).sh.supEvents ≤ 2 ∧
+    ((run g0 sched).exiter.unwound = false → (run g0 sched).sh.supEvents ≤ 1) ∧
+    ((run g0 sched).exiter.finished = true → 1 ≤ (run g0 sched).sh.supEvents) := by
+  have h0' : EvOk g0 := by
+    refine ⟨by rw [hz]; exact Nat.zero_le _, fun hp => ?_⟩
+    rw [h0.exiter] at hp; simp [EPc.pastNotify] at hp
+  have E := evok_run g0 sched (inv_initial g0 h0) h0'
+  have hle := E.le
+  refine ⟨?_, fun hu => ?_, fun hf => E.ge (finished_pastNotify hf)⟩
+  · have : b2n (run g0 sched).exiter.pc.pastNotify ≤ 1 ∧ b2n (run g0 sched).exiter.unwound ≤ 1 := by
+      constructor <;> (unfold b2n; split <;> omega)
+    omega
+  · rw [hu] at hle
+    have : b2n (run g0 sched).exiter.pc.pastNotify ≤ 1 := by unfold b2n; split <;> omega
+    simp only [b2n, Bool.false_eq_true, if_false] at hle this
+    omega
+
+/-- witness: `cleanup.unlink` panics after the supervisor has been notified; the guard re-runs
+`cleanup`: two terminal events, and both waiters are still released, after a full stop -/
+example :
+    let g := run (init true [] [] 2)
+      ([.w 0, .w 0, .w 0] ++ List.replicate 9 .e ++ [.unwind] ++ List.replicate 12 .e ++ [.w 0, .w 1, .w 1])
+    g.sh.supEvents = 2 ∧ g.exiter.unwound = true ∧ g.exiter.finished = true ∧
+      g.waiters.map (·.pc) = [.returned true, .returned true] := by decide
+
+/-! ### Round 4: every wait form, and the supervisor-side children wrappers (`Model/WaitForms.lean`)
+
+Any number of actors ("kids"), each with its own complete exit machine; any number of concurrent
+calls of `wait(None|Some t)`, `stop_and_wait`, `kill_and_wait`, `drain_and_wait` (each: a send step
+that may fail, then `wait()`, which a timer may abandon) and join-handle awaits; racers using the
+one-shot ports; `stop_children_and_wait` / `drain_children_and_wait` as sets of such calls whose
+results are discarded. All schedules. -/
+
+/-- (every wait form) A call that returned `Ok(())` — whichever form, with or without a timeout,
+started before, during or after the exit — recorded a fully stopped actor at the moment of its
+return (`snap = true`: the oracle `formOk`), and the actor is fully stopped in the current state as
+well: status `Stopped`; every clean-up statement of the exit sequence has been executed
+(`flags.complete`: the calls that unregister the pid and the name, drop group monitors and
+memberships, terminate the children, notify the supervisor, unlink; `post_stop` returned on a
+graceful exit — program order, the observable effect of each call is C10 / C11 / C05's subject);
+and, in terms of modelled state rather than of executed statements: the registry entry of the name
+is no longer the actor's (`Sh.name`, whoever races for the freed name), and its one-shot stop and
+signal ports accept nothing any more (the port set went with the processing loop). -/
+theorem ok_means_fully_stopped (x0 : X) (h0 : XInitial x0) (sched : List XTid) :
+    ∀ c ∈ (xrun x0 sched).callers, ∀ snap, c.pc = .done (.ok snap) →
+      snap = true ∧ ∃ kid, (xrun x0 sched).kids[c.kid]? = some kid ∧
+        kid.fullyStopped = true ∧ kid.g.sh.status = stStopped ∧
+        kid.g.sh.flags.complete kid.g.exiter.hasPostStop = true ∧
+        kid.g.sh.name ≠ .self ∧ kid.stopOpen = false ∧ kid.signalOpen = false := by
+  intro c hc snap hs
+  have I := xinv_run _ sched (xinv_initial x0 h0)
+  have hlt := I.has c hc (by rw [hs]; simp)
+  obtain ⟨kid, hk⟩ : ∃ kid, (xrun x0 sched).kids[c.kid]? = some kid :=
+    ⟨_, List.getElem?_eq_getElem hlt⟩
+  have hok := (I.callers c hc kid hk).ok snap hs
+  have hi := I.kids kid (List.mem_of_getElem? hk)
+  have hf := fullyStopped_of_stage hi hok.2
+  have hf' := hf
+  simp only [Kid.fullyStopped, okNow, snapshotOk, Bool.and_eq_true, beq_iff_eq] at hf'
+  have hname := xrun_name_gone x0 h0 sched kid (List.mem_of_getElem? hk) (by omega)
+  have hgone : kid.g.exiter.pc.loopGone = true := loopGone_of_stage (by omega)
+  exact ⟨hok.1, kid, hk, hf, hf'.1, hf'.2, hname, by simp [Kid.stopOpen, Kid.rxAlive, hgone],
+    by simp [Kid.signalOpen, Kid.rxAlive, hgone]⟩
+
+/-- The run-time oracle of the wait forms holds of every finished call of the model. -/
+theorem form_oracle_holds (x0 : X) (h0 : XInitial x0) (sched : List XTid) :
+    ∀ c ∈ (xrun x0 sched).callers, ∀ r, c.pc = .done r → formOk r = true := by
+  intro c hc r hr
+  cases r with
+  | ok snap => exact (ok_means_fully_stopped x0 h0 sched c hc snap hr).1
+  | sendErr => rfl
+  | timeout => rfl
+
+/-- A call whose send step failed (`stop_and_wait` on an actor whose one-shot stop port was already
+used or whose port set is gone; `drain_and_wait` whose marker could not be enqueued) returned the
+error WITHOUT waiting: its request was not accepted, and nothing is claimed about the actor. -/
+theorem send_error_means_not_accepted (x0 : X) (h0 : XInitial x0) (sched : List XTid) :
+    ∀ c ∈ (xrun x0 sched).callers, c.pc = .done .sendErr → c.accepted = false := by
+  intro c hc hs
+  have I := xinv_run _ sched (xinv_initial x0 h0)
+  have hlt := I.has c hc (by rw [hs]; simp)
+  exact (I.callers c hc _ (List.getElem?_eq_getElem hlt)).err hs
+
+/-- (the send step, exactly) `stop_and_wait` returns the send error — without waiting — iff a
+`stop()` issued now would not be accepted (the one-shot stop port was already used by somebody, or
+the port set is gone), and goes on to `wait()` otherwise; `kill_and_wait` ignores the send error and
+always waits; `drain_and_wait` fails iff the drain marker still has to be enqueued and the mailbox
+receiver is gone; `wait` and the join handle have no send step. -/
+theorem send_step_outcomes (kid : Kid) (c : Caller) :
+    (c.form = .stopWait → ((sendStep kid c).2.pc = .done .sendErr ↔ kid.stopOpen = false) ∧
+                          ((sendStep kid c).2.pc = .waiting ↔ kid.stopOpen = true)) ∧
+    (c.form = .killWait → (sendStep kid c).2.pc = .waiting) ∧
+    (c.form = .drainWait → ((sendStep kid c).2.pc = .done .sendErr ↔ (kid.ports.marker = false ∧ kid.rxAlive = false))) ∧
+    (c.form = .wait ∨ c.form = .join → (sendStep kid c).2.pc = .waiting) := by
+  refine ⟨fun hf => ?_, fun hf => ?_, fun hf => ?_, fun hf => ?_⟩
+  · simp only [sendStep, hf, Kid.stopOpen]
+    cases kid.ports.stop <;> cases kid.rxAlive <;> simp
+  · simp only [sendStep, hf]
+  · simp only [sendStep, hf]
+    cases kid.ports.marker <;> cases kid.rxAlive <;> simp
+  · rcases hf with hf | hf <;> simp only [sendStep, hf]
+
+/-- (they do complete — every wait form) Once the actor's exit sequence has finished, every step of
+a call that is not done yet — whichever form, whether it started before, during or after the exit —
+strictly decreases the number of steps it still needs (`Caller.rank` ≤ 6: send step, create
+`Notified`, read the status, first poll, one more poll): no call is ever left blocked, the only
+assumption being that the caller is scheduled (and that nobody dropped its `Notified`). The exit
+sequence itself always finishes (`exiter_always_finishes`). -/
+theorem every_call_completes (x0 : X) (h0 : XInitial x0) (sched : List XTid) (j : Nat) (c : Caller) (kid : Kid)
+    (hc : (xrun x0 sched).callers[j]? = some c) (hk : (xrun x0 sched).kids[c.kid]? = some kid)
+    (hf : kid.g.exiter.finished = true) (hd : c.isDone = false)
+    (hslot : c.form ≠ .join → c.w < kid.g.waiters.length ∧ isAbandoned kid.g c.w = false) :
+    ∃ c' kid', (xstep (xrun x0 sched) (.call j)).callers[j]? = some c' ∧
+      (xstep (xrun x0 sched) (.call j)).kids[c.kid]? = some kid' ∧
+      Caller.rank kid' c' < Caller.rank kid c := by
+  have I := xinv_run _ sched (xinv_initial x0 h0)
+  have hi := I.kids kid (List.mem_of_getElem? hk)
+  have hjl := (List.getElem?_eq_some_iff.1 hc).1
+  have hkl := (List.getElem?_eq_some_iff.1 hk).1
+  refine ⟨(callStep kid c).2, (callStep kid c).1, ?_, ?_, call_progress kid c hi hf hd hslot⟩
+  · simp only [xstep, hc, hk]
+    exact List.getElem?_set_self hjl
+  · simp only [xstep, hc, hk]
+    exact List.getElem?_set_self hkl
+
+/-- non-vacuity of `every_call_completes`: a `stop_and_wait` whose stop was accepted, the exit runs
+to its end before the call's first poll; four more steps of the call and it has returned `Ok` -/
+example :
+    let x0 : X := { kids := [{ g := init true [] [] 1 }], callers := [{ kid := 0, form := .stopWait, w := 0 }] }
+    let x := xrun x0 ([.call 0] ++ List.replicate 17 (.kid 0 .e))
+    (x.callers.map (fun c => (c.pc, c.isDone)) = [(.waiting, false)]) ∧
+    (x.kids.map (fun k => (k.g.exiter.finished, k.g.waiters.length, isAbandoned k.g 0)) = [(true, 1, false)]) ∧
+    (x.callers.map (fun c => Caller.rank (x.kids.getD 0 {}) c) = [5]) ∧
+    ((xrun x [.call 0, .call 0]).callers.map (·.pc) = [.done (.ok true)]) := by decide
+
+/-- (children wrappers, what holds) When `stop_children_and_wait` / `drain_children_and_wait` has
+returned, every task of its `JoinSet` is done, and every child of the snapshot whose stop / drain
+request was accepted by THIS call and whose wait did not time out is fully stopped. -/
+theorem children_wrapper_accepted_children_stopped (x0 : X) (h0 : XInitial x0) (sched : List XTid) :
+    ∀ wr ∈ (xrun x0 sched).wrappers, wr.returned = true →
+      ∀ j ∈ wr.callers, ∀ c, (xrun x0 sched).callers[j]? = some c →
+        c.isDone = true ∧
+        (c.accepted = true → c.pc ≠ .done .timeout →
+          ∃ kid, (xrun x0 sched).kids[c.kid]? = some kid ∧ kid.fullyStopped = true) := by
+  intro wr hwr hret j hj c hc
+  have I := xinv_run _ sched (xinv_initial x0 h0)
+  have hd := I.wrappers wr hwr hret j hj c hc
+  refine ⟨hd, fun hacc hnt => ?_⟩
+  have hmem := List.mem_of_getElem? hc
+  cases hpc : c.pc with
+  | send => simp [Caller.isDone, hpc] at hd
+  | waiting => simp [Caller.isDone, hpc] at hd
+  | done r =>
+    cases r with
+    | ok snap =>
+      obtain ⟨_, kid, hk, hf, _⟩ := ok_means_fully_stopped x0 h0 sched c hmem snap hpc
+      exact ⟨kid, hk, hf⟩
+    | sendErr =>
+      have := send_error_means_not_accepted x0 h0 sched c hmem hpc
+      rw [this] at hacc; cases hacc
+    | timeout => exact absurd hpc hnt
+
+/-- The wrapper oracle (`wrapperChildOk`) holds of every child of a returned wrapper. -/
+theorem wrapper_oracle_holds (x0 : X) (h0 : XInitial x0) (sched : List XTid) :
+    ∀ wr ∈ (xrun x0 sched).wrappers, wr.returned = true →
+      ∀ j ∈ wr.callers, ∀ c kid, (xrun x0 sched).callers[j]? = some c →
+        (xrun x0 sched).kids[c.kid]? = some kid →
+        wrapperChildOk c.accepted (c.pc == .done .timeout) kid.fullyStopped = true := by
+  intro wr hwr hret j hj c kid hc hk
+  have h := (children_wrapper_accepted_children_stopped x0 h0 sched wr hwr hret j hj c hc).2
+  simp only [wrapperChildOk, Bool.or_eq_true, Bool.not_eq_true', beq_iff_eq]
+  cases hacc : c.accepted
+  · exact Or.inl (Or.inl rfl)
+  · by_cases ht : c.pc = .done .timeout
+    · exact Or.inl (Or.inr ht)
+    · obtain ⟨kid', hk', hf⟩ := h hacc ht
+      rw [hk] at hk'; cases hk'
+      exact Or.inr hf
+
+/-- witness: one running child whose one-shot stop port a racer has used (`stop()` issued, the
+child still in its handler: its exit sequence has not begun), then `stop_children_and_wait` -/
+def strandedChild : X :=
+  { kids := [{ g := init true [] [] 1 }],
+    callers := [{ kid := 0, form := .stopWait, w := 0 }],
+    wrappers := [{ callers := [0] }] }
+
+/-- (children wrappers, what does NOT hold — outside C06's claim) `stop_children_and_wait` can
+return while a child that had already been asked to stop by someone else is still `Running`: the
+one-shot stop port refuses the second stop, the inner `stop_and_wait` returns
+`Err(Messaging(ChannelClosed))` BEFORE waiting, and the wrapper discards that result. C06 speaks of
+the wait forms "when they return Ok" — the inner call returned `Err`, the wrapper returns `()`. The
+full-strength statement "when the wrapper returns every child of the snapshot is stopped" is
+therefore false of the code; this is its negation on a concrete schedule. -/
+theorem children_wrapper_may_return_with_running_child :
+    let x := xrun strandedChild [.stop 0, .call 0, .wrap 0]
+    XInitial strandedChild ∧
+    x.wrappers.map (·.returned) = [true] ∧
+    x.callers.map (fun c => (c.pc, c.accepted)) = [(.done .sendErr, false)] ∧
+    x.kids.map (fun k => (k.g.sh.status, k.fullyStopped)) = [(2, false)] := by
+  refine ⟨⟨?_, ?_, ?_⟩, by decide, by decide, by decide⟩
+  · intro k hk
+    simp only [strandedChild, List.mem_singleton] at hk
+    subst hk
+    exact initial_init true [] [] 1 rfl
+  · intro c hc
+    simp only [strandedChild, List.mem_singleton] at hc
+    subst hc; exact ⟨rfl, rfl⟩
+  · intro w hw
+    simp only [strandedChild, List.mem_singleton] at hw
+    subst hw; rfl
+
+/-- `drain_children_and_wait` does wait for a child that somebody else already drained: a second
+`drain()` is accepted (`DRAIN_MARKER_SENT` already set ⇒ `Ok`), so the inner call goes on to
+`wait()`. Same child, racer = an earlier drain (status `Draining`, marker sent): the wrapper cannot
+return before the child's exit has finished. -/
+def drainingG (drainers : Nat) : G := { (init true [] [] 1 drainers) with sh := { status := 4 } }
+
+example :
+    let x0 : X := { kids := [{ g := drainingG 1, ports := { marker := true } }],
+                    callers := [{ kid := 0, form := .drainWait, w := 0, d := 0 }],
+                    wrappers := [{ callers := [0] }] }
+    (xrun x0 [.call 0, .call 0, .call 0, .wrap 0]).wrappers.map (·.returned) = [false] ∧
+    (xrun x0 ([.call 0, .call 0, .call 0, .wrap 0] ++ List.replicate 16 (.kid 0 .e) ++ [.call 0, .wrap 0])).wrappers.map
+      (·.returned) = [true] := by decide
+
+/-- (timeout) A timer that fires — `Timeout::poll` polls the inner future once more and drops it if
+it is still pending — changes neither the status, nor any clean-up flag, nor the exiter, nor the
+ports of the actor; and the call then reports `Ok` (that last poll completed: fully stopped, by
+`ok_means_fully_stopped`) or `Timeout`, never anything else. -/
+theorem timeout_has_no_effect (kid : Kid) (c : Caller) (h : c.isDone = false) :
+    ((timeoutStep kid c).1.g.sh.status = kid.g.sh.status ∧ (timeoutStep kid c).1.g.sh.flags = kid.g.sh.flags ∧
+      (timeoutStep kid c).1.g.exiter = kid.g.exiter ∧ (timeoutStep kid c).1.ports = kid.ports) ∧
+    ((timeoutStep kid c).2 = c ∨ (∃ b, (timeoutStep kid c).2.pc = .done (.ok b)) ∨
+      (timeoutStep kid c).2.pc = .done .timeout) :=
+  ⟨timeoutStep_keeps kid c, timeoutStep_result kid c h⟩
+
+/-- non-vacuity: four children — running, already asked to stop by a racer, draining, already
+stopped — and one `stop_children_and_wait(None, Some t)` over all of them. Child 0 is stopped by
+this call and awaited; child 1's stop is refused (`sendErr`), it is still running when the wrapper
+returns; child 2 (draining) accepts the stop, its wait times out; child 3 had already exited (port
+set gone): `sendErr`. -/
+def fourChildren : X :=
+  { kids := [{ g := init true [] [] 1 }, { g := init true [] [] 1 },
+             { g := drainingG 0, ports := { marker := true } },
+             { g := init true [] [] 1 }],
+    callers := [{ kid := 0, form := .stopWait, timed := true }, { kid := 1, form := .stopWait, timed := true },
+                { kid := 2, form := .stopWait, timed := true }, { kid := 3, form := .stopWait, timed := true }],
+    wrappers := [{ callers := [0, 1, 2, 3] }] }
+
+example :
+    let x := xrun fourChildren
+      (List.replicate 17 (.kid 3 .e) ++ [.stop 1, .call 0, .call 1, .call 2, .call 3, .call 0, .call 0, .call 2, .call 2]
+        ++ List.replicate 16 (.kid 0 .e) ++ [.wrap 0, .timeout 2, .wrap 0, .call 0, .wrap 0])
+    x.wrappers.map (·.returned) = [true] ∧
+    x.callers.map (fun c => (c.pc, c.accepted))
+      = [(.done (.ok true), true), (.done .sendErr, false), (.done .timeout, true), (.done .sendErr, false)] ∧
+    x.kids.map (fun k => (k.g.sh.status, k.fullyStopped)) = [(6, true), (2, false), (4, false), (6, true)] := by
+  decide
+
+/-- `kill_and_wait` ignores the send error: on an actor whose signal port was already used it still
+waits, and returns `Ok` once the actor has stopped; a join handle completes only when the exit
+sequence has finished. -/
+example :
+    let x0 : X := { kids := [{ g := init false [] [] 1, ports := { signal := false } }],
+                    callers := [{ kid := 0, form := .killWait, w := 0 }, { kid := 0, form := .join }] }
+    (xrun x0 ([.call 0, .call 1, .call 1, .call 0, .call 0] ++ List.replicate 13 (.kid 0 .e) ++ [.call 1])).callers.map
+        (fun c => (c.pc, c.accepted)) = [(.waiting, false), (.waiting, false)] ∧
+    (xrun x0 ([.call 0, .call 1, .call 1, .call 0, .call 0] ++ List.replicate 14 (.kid 0 .e) ++ [.call 1, .call 0])).callers.map
+        (fun c => (c.pc, c.accepted)) = [(.done (.ok true), false), (.done (.ok true), false)] := by
+  decide
+
 /-! ### Source guards (E-SRC) -/
 
 /-- statement order of `ActorLifecycleGuard::cleanup` -/
@@ -175,7 +507,15 @@ def exampleSched : List Tid :=
 example : (run (init true [] [[1, 2]] 3) exampleSched).waiters.map (·.pc)
     = [.returned true, .returned true, .returned true] := by decide
 example : (run (init true [] [[1, 2]] 3) exampleSched).exiter.finished = true := by decide
-example : (run (init true [] [[1, 2]] 3) [.w 0, .w 0]).waiters.map (·.pc) = [.registered, .start, .start] := by
+example : (run (init true [] [[1, 2]] 3) [.w 0, .w 0, .w 0]).waiters.map (·.pc) = [.registered, .start, .start] := by
+  decide
+/-- the window between `get_status()` and the first poll of `Notified`: waiter 0 reads `Running`
+(`checked`), the whole exit including `notify_waiters` and `notify_one` runs, then the first poll:
+it completes because the generation moved (and leaves the permit for a later waiter) -/
+example :
+    (run (init true [] [] 2) [.w 0, .w 0]).waiters.map (·.pc) = [.checked 0, .start] ∧
+    let g := run (init true [] [] 2) ([.w 0, .w 0] ++ List.replicate 17 .e ++ [.w 0])
+    g.waiters.map (·.pc) = [.returned true, .start] ∧ g.sh.permit = true ∧ g.exiter.finished = true := by
   decide
 /-- a timed-out waiter -/
 example : (run (init false [6] [] 2) ([.w 0, .w 0, .abandon 0] ++ List.replicate 20 .e ++ [.w 1, .w 1])).waiters.map (·.pc)
@@ -221,6 +561,18 @@ theorem generated_set_status_notify_condition_eq_model (enq : Except MessagingEr
   cases s <;> cases prev <;> rfl
 end XlateTie
 
+/-! ### E-SRC, async-std backend (round 4)
+
+`wait(Some(d))`, `stop_and_wait`, `kill_and_wait`, `drain_and_wait` go through `concurrency::timeout`; with
+`--features async-std` it forwards duration and future unchanged to `async_std::future::timeout` and maps its error
+to `Timeout`. The children waits (`stop_children_and_wait`, `drain_children_and_wait`) use the backend's `JoinSet`,
+which polls the futures inline in the caller (`FuturesUnordered`) and never reports a join error. -/
+theorem src_async_std_timeout :
+    Extracted.asyncStdTimeoutBody = "async_std::future::timeout(dur,future).await.map_err(|_|super::Timeout)" := by decide
+theorem src_async_std_joinset :
+    Extracted.asyncStdJoinSetSpawnBody = "self.set.push(f.boxed());"
+    ∧ Extracted.asyncStdJoinSetJoinNextBody = "self.set.next().await.map(|item|Ok(item))" := by decide
+
 end C06
 
 #print axioms C06.waiter_returns_only_after_full_stop
@@ -240,3 +592,17 @@ end C06
 -- rs2lean tie
 #print axioms C06.generated_set_status_cleanup_condition_eq_model
 #print axioms C06.generated_set_status_notify_condition_eq_model
+#print axioms C06.ok_means_fully_stopped
+#print axioms C06.form_oracle_holds
+#print axioms C06.send_error_means_not_accepted
+#print axioms C06.children_wrapper_accepted_children_stopped
+#print axioms C06.wrapper_oracle_holds
+#print axioms C06.children_wrapper_may_return_with_running_child
+#print axioms C06.timeout_has_no_effect
+#print axioms C06.returned_waiter_name_released
+#print axioms C06.send_step_outcomes
+#print axioms C06.every_call_completes
+#print axioms C06.terminal_events_bounded
+#print axioms C06.post_stop_skipped_only_after_kill
+#print axioms C06.src_async_std_timeout
+#print axioms C06.src_async_std_joinset
